@@ -929,6 +929,40 @@ pub fn record_poll(out: &mut Out, tier: &str, seed: u64) {
             }
         }
     }
+    // TWO faults at once: a catalogue malformation AND the stream ending inside the frame (what is reported - the
+    // protocol error or the end of input - must not depend on the schedule), under 1-byte reads with a Pending
+    // before each and the future dropped every time, and under 3-byte reads without Pendings
+    {
+        fn mal_cut_runs<F: GenFam>(out: &mut Out, rng: &mut Rng, run: &mut u64, npk: usize) {
+            let mut bb = Budget { big: 0, huge: 0 };
+            let types = F::types();
+            for i in 0..npk {
+                let p = F::gen(rng, &mut bb, types[i % types.len()]);
+                let Some(e) = enc::<F>(&p).1 else { continue };
+                if e.len() > 120 {
+                    continue;
+                }
+                let Some(fr) = crate::tokens::tokenize(F::NAME, &e) else { continue };
+                for m in crate::tokens::catalogue(&fr, rng) {
+                    let n = m.bytes.len();
+                    if n < 4 {
+                        continue;
+                    }
+                    for cut in [n - 1, n - 1 - rng.below((n as u64 - 2) / 2) as usize] {
+                        let v = &m.bytes[..cut];
+                        *run += 1;
+                        let sc: Vec<RStep> = (0..cut + 2).flat_map(|_| [RStep::Pending, RStep::Data(1)]).collect();
+                        poll_scripted_run::<F>(out, rng, *run, v, Some((sc, RStep::Data(1))), Some(true));
+                        *run += 1;
+                        poll_scripted_run::<F>(out, rng, *run, v, Some((vec![], RStep::Data(3))), Some(false));
+                    }
+                }
+            }
+        }
+        let npk = if tier == "thorough" { 300 } else { 30 };
+        mal_cut_runs::<V3>(out, &mut rng, &mut run, npk);
+        mal_cut_runs::<V5>(out, &mut rng, &mut run, 2 * npk);
+    }
     for i in 0..n {
         run += 1;
         let v = if i % 3 == 0 { input_for::<V3>(&mut rng, &mut b, i) } else { wide_frame::<V3>(&mut rng, &mut b, i) };
